@@ -101,7 +101,13 @@ func (g *wireGen) accountName() string {
 		g.rc.Stats.Inc("probe_pattern_fragments_in_name", 1)
 		return g.regexName()
 	}
-	switch ch.Pick(12, 0) {
+	switch ch.Pick(15, 0) {
+	case 12:
+		return "Wallet 1" // a whole wallet
+	case 13:
+		return []string{"Wallet 2", "Wallet 3", "wallet 1"}[ch.Pick(3, 0)]
+	case 14:
+		return "Wallet 1/Account .*"
 	case 0:
 		return ""
 	case 1:
@@ -471,6 +477,10 @@ func callGuarded(limit time.Duration, f func() (proto.Message, error)) (res prot
 
 // runWire is the body of C20.
 func runWire(t *testing.T, rc *RunCtx) {
+	if rc.Param("mode", "") == "free" {
+		runFreeWire(t, rc)
+		return
+	}
 	InitBLS()
 	ch := rc.Ch
 	s := NewSched(rc, SchedCfg{})
